@@ -24,21 +24,30 @@ def lexicon(ctx, modname, afs):
 def ptrformula_rule(ctx, R3, X):
     """`SIZE PTR seg:[formula]` (the form the renderer prints): the grammar action is evaluated on every segment x address shape, including base + scaled index with ebp / esp as the
     base written as one coefficient ([ebp+ebp*2] is {ebp: 3}).  Shared with C09.D12: the Intel rendering of a ds: override on an ss-relative address must assemble back with its prefix."""
-    from ..consteval import Evaluator, NotConst
+    from ..consteval import Evaluator, NotConst, callables_of, module_env
     pa = ctx.mod('parse_ad')
     afs, E = X.afs, X.env
     ptr2 = pa.funcs.get('p_ptrformula_2')
     if ptr2 is None:
         raise AnalysisError('parse_ad.p_ptrformula_2 not found')
+    # the module-level constants and helper functions of parse_ad that the action may use (the lexer / parser objects are left unbound)
+    base_ = dict(callables_of(pa, [X.arch]))
+    base_.update(E)
+    base_['x86_afs'] = afs
+    pa_env, _skipped = module_env(pa, base_)
     for seg in range(6):
         for regs, label in (({0: 1}, '[eax]'), ({5: 1}, '[ebp]'), ({4: 1}, '[esp]'), ({0: 1, 5: 1}, '[eax+ebp]'), ({}, '[disp]'), ({5: 3}, '[ebp+ebp*2]'), ({5: 5}, '[ebp+ebp*4]'),
-                            ({5: 9}, '[ebp+ebp*8]'), ({5: 1, 0: 4}, '[ebp+eax*4]'), ({4: 1, 0: 2}, '[esp+eax*2]'), ({4: 1, 5: 8}, '[esp+ebp*8]'), ({0: 1, 1: 2}, '[eax+ecx*2]')):
+                            ({5: 9}, '[ebp+ebp*8]'), ({5: 1, 0: 4}, '[ebp+eax*4]'), ({4: 1, 0: 2}, '[esp+eax*2]'), ({4: 1, 5: 8}, '[esp+ebp*8]'), ({0: 1, 1: 2}, '[eax+ecx*2]'),
+                            # the same address with its two unscaled registers written in the other order (the formula keeps the order of the text)
+                            ({5: 1, 0: 1}, '[ebp+eax]'), ({0: 1, 4: 1}, '[eax+esp]'), ({4: 1, 0: 1}, '[esp+eax]'), ({1: 1, 5: 1}, '[ecx+ebp]'), ({0: 4, 5: 1}, '[eax*4+ebp]'),
+                            ({afs.imm: 8, 1: 1, 4: 1}, '8[ecx+esp]'), ({1: 1, 4: 1, afs.imm: 8}, '[ecx+esp+8]')):
             formula = dict(regs)
             formula.update({afs.ad: True, afs.size: True})
             if not regs:
                 formula[afs.imm] = 16
             t = [None, {afs.ad: afs.u32}, {afs.segm: seg}, formula]
-            ev_ = Evaluator(dict(E, x86_afs=afs))
+            scope_ = dict(pa_env)
+            ev_ = Evaluator(scope_)
             try:
                 ev_.call_user(ptr2, [t])
             except NotConst as e:
@@ -48,7 +57,7 @@ def ptrformula_rule(ctx, R3, X):
             problems = []
             if res.get(afs.ad) != afs.u32:
                 problems.append('the PTR size is lost (ad = %r)' % res.get(afs.ad))
-            need_seg = seg != 3 or 4 in regs or 5 in regs
+            need_seg = seg != 3 or 4 in regs or 5 in regs      # (an explicit ds: in front of any esp / ebp term is kept: with two unscaled registers either may be the base)
             if need_seg and res.get(afs.segm) != seg:
                 problems.append('the %s: override is dropped although the default segment of %s is %s' % (list(afs.reg_sg)[seg], label, 'ss' if (4 in regs or 5 in regs) else 'ds'))
             if problems:
